@@ -253,10 +253,11 @@ class CallMixin:
             ty = self.param_type(p, module, contract)
             v = loc.get(p.arg)
             if ty is not None and isinstance(v, (V, EmptyLiteral)):
-                if isinstance(v, V) and isinstance(v.ty, TOpt) and not isinstance(ty, TOpt) and ty != TAny and not self.spec:
-                    # an Optional value passed where the callee's contract is stated for a present value: None would make
-                    # the callee fail in a way its contract does not describe - treated as an implicit TypeError site
-                    self.fail(z3.Not(sym.opt_is_none(v)), "TypeError", "None passed for parameter %s" % p.arg, None)
+                if isinstance(v, V) and isinstance(v.ty, TOpt) and not isinstance(ty, TOpt) and ty != TAny and not self.spec and contract is not None and not contract.inline and (not contract.trusted or ("%s is not None" % p.arg) in " ".join(contract.requires)):
+                    # Optional value passed for a parameter that the callee's contract types as present (a verified callee was
+                    # verified for present values only; a trusted stub says so in its requires): "is not None" is an
+                    # obligation at the call site, then the value is unwrapped for the callee's clauses
+                    self.ctx.oblige("%s:call:%s.%s-present" % (self.callee_stack[-1] if self.callee_stack else "?", fnode.name, p.arg), "call-requires", z3.Not(sym.opt_is_none(v)), note="%s is not None" % p.arg)
                     v = sym.opt_val(v)
                 try:
                     loc[p.arg] = self.materialize(v, ty) if isinstance(v, EmptyLiteral) else sym.coerce(v, ty)
